@@ -51,6 +51,17 @@ def cioStep (st : CioSt) (toks : List String) : CioSt × String :=
     match parseCioBatch t with
     | some b => let s' := st.s.step (.abort b); ({ st with s := s' }, cioReport st.s s')
     | none => (st, "bad-op")
+  | ["longcommit", c, k] =>
+    -- a replica that catches up: k chained blocks of one command each (client 7, sequence number = view, one data
+    -- byte = view), the newest handed to TryCommit: chained HotStuff commits the blocks of views 1 … k-3, and the
+    -- application executes exactly their commands, in chain order — whatever the capacity of the event queue
+    match c.toNat?, k.toNat? with
+    | some c, some k =>
+      if c < 1 || c > 100000 || k < 1 || k > 250 then (st, "bad-op") else
+      let committed := k - 3
+      let s' := (List.range committed).foldl (fun (s : CIO) v => s.step (.exec [⟨7, v + 1, String.ofList [Char.ofNat (v + 1)]⟩])) {}
+      (st, s!"committed={committed} count={s'.executed.length} digest={cioDigest s'}")
+    | _, _ => (st, "bad-op")
   | _ => (st, "bad-op")
 
 -- @family "clientio" clientioFam
@@ -78,6 +89,13 @@ def parseOut (t : String) : Option (List (Nat × String)) :=
 def cioOracleStep (s : CioOr) (toks : List String) : CioOr × String :=
   let (lhs, rhs) := splitArrow toks
   match lhs with
+  | ["longcommit", _, _] =>
+    -- every command of a committed block is executed: as many executions as committed blocks (one command each)
+    match (field "committed" rhs).bind (·.toNat?), (field "count" rhs).bind (·.toNat?) with
+    | some cm, some n =>
+      if n == cm then (s, "pass")
+      else (s, s!"fail exec-lost a replica committed {cm} blocks in one go but handed only {n} of their commands to the application")
+    | _, _ => (s, if rhs == ["bad-op"] then "pass" else "fail clientio-unreadable " ++ " ".intercalate rhs)
   | ["register", t] =>
     match parseCioCmd t with
     | some c => let k := s.nreg + 1
